@@ -113,9 +113,12 @@ impl<'t> FieldTypeAndInstantiationsBuilder<'t, '_> {
 					} => format!(r#"{{}}.{}.{}"#, enum_name.unraw(), variant_name.unraw()),
 				};
 				self.expand_namespace_var = true;
-				quote! {
-					format!(#pattern, namespace.get())
-				}
+				with_generic_instantiation_hash(
+					self.generics,
+					quote! {
+						format!(#pattern, namespace.get())
+					},
+				)
 			}
 			Some(namespace) => 'new_name: {
 				if let FieldKind::StructField { field_name, .. } = field_kind {
@@ -147,7 +150,7 @@ impl<'t> FieldTypeAndInstantiationsBuilder<'t, '_> {
 						field_or_variant_name.unraw(),
 					),
 				};
-				quote! { #type_name.to_owned() }
+				with_generic_instantiation_hash(self.generics, quote! { #type_name.to_owned() })
 			}
 		};
 
@@ -367,6 +370,28 @@ impl<'t> FieldTypeAndInstantiationsBuilder<'t, '_> {
 		}
 
 		(ty, field_instantiation)
+	}
+}
+
+/// Named nodes owned by a newtype struct or an enum variant of a generic type
+/// need a different name for each instantiation, like the generic records
+fn with_generic_instantiation_hash(generics: &syn::Generics, name_expr: TokenStream) -> TokenStream {
+	let has_non_lifetime_generics = generics
+		.params
+		.iter()
+		.any(|gp| !matches!(gp, syn::GenericParam::Lifetime(_)));
+	if !has_non_lifetime_generics {
+		return name_expr;
+	}
+	quote! {
+		{
+			let mut name = #name_expr;
+			serde_avro_derive::hash_type_id(
+				&mut name,
+				std::any::TypeId::of::<<Self as serde_avro_derive::BuildSchema>::TypeLookup>(),
+			);
+			name
+		}
 	}
 }
 
